@@ -292,8 +292,8 @@ func NewNet(cfg Config) (*Net, error) {
 		}
 		nd.SignFile = filepath.Join(cfg.Dir, fmt.Sprintf("priv_%d.json", i))
 		nd.WALDir = filepath.Join(cfg.Dir, fmt.Sprintf("wal_%d", i))
-		nd.StateDB = dbm.NewMemDB()
-		nd.BlockDB = dbm.NewMemDB()
+		nd.StateDB = NewDiskDB()
+		nd.BlockDB = NewDiskDB()
 		nd.App = &MockApp{AppHash: []byte{}}
 		nd.Pool = &MockPool{node: i, TxsPer: 2}
 		pv, err := types.GenPrivValidator(crypto.CryptoTypeZhongAn, n.Keys[i])
